@@ -287,6 +287,29 @@ def run(prog, rep, tier, repo):
                             if ps == [0, 1] and _orders_adjacent(rv2, want_v, gx, i_) and v is (not want_v):
                                 good = True
             if not good:
+                # pair iteration: x.windows(2) visits every adjacent pair; x.chunks(2) / chunks_exact(2) visits the disjoint pairs (0,1), (2,3), ..
+                # and never compares x[1] with x[2]
+                for li in loops:
+                    it = li['iter']
+                    while tag(it) == 'call' and short(it[1]) in ('into_iter', 'iter', 'by_ref') and it[2]:
+                        it = it[2][0]
+                    if tag(it) == 'call' and short(it[1]) in ('windows', 'chunks', 'chunks_exact') and len(it[2]) == 2 and tag(it[2][1]) == 'const' and it[2][1][2] == 2:
+                        src = it[2][0]
+                        while tag(src) == 'call' and short(src[1]) in ('deref', 'as_slice') and src[2]:
+                            src = src[2][0]
+                        if src != gx:
+                            continue
+                        item = li['item']
+                        panics = [(cn, v) for s_, d_, cn, v in g.edge_conditions() if s_ in li['blocks'] and g.cfg.only_panics_from(d_) and isinstance(v, bool)
+                                  and any(tag(z) == 'index' and z[1] == item for z in subterms(cn))]
+                        if not panics:
+                            continue
+                        if short(it[1]) == 'windows' and g.cfg.dominates(li['header'], c.bb):
+                            good = True
+                        elif short(it[1]) in ('chunks', 'chunks_exact'):
+                            problems.append('the ordering check walks x.%s(2): the disjoint pairs (x[0],x[1]), (x[2],x[3]), .. -- a descent from an odd to the next even '
+                                            'index (x[1] > x[2]) is never seen, so unsorted abscissae are accepted' % short(it[1]))
+            if not good and not problems:
                 loopish = any(tag(li['iter']) == 'range' for li in loops) or any(tag(cn) == 'call' and short(cn[1]) in ('any', 'all') for cn, _ in gs)
                 if loopish:
                     problems.append('no check over 0..len(x)-1 that panics when x[i+1] < x[i] dominates the call')
